@@ -358,4 +358,11 @@ ListFamily(full) ==
                                   Call("apply", <<TickFold, Num(1), Quote(MkList(<<MkList(<<>>)>>))>>),
                                   Call("apply", <<Var("map"), TickEach, Quote(MkList(<<MkList(<<MkInt(1), MkInt(2)>>)>>))>>),
                                   Call("apply", <<Var("apply"), Var("list"), Quote(MkList(<<MkInt(1), MkList(<<MkInt(2)>>)>>))>>)}}
+
+----------------------------------------------------------------------------
+(* C17: small program files: displays, newlines, definitions, uses of (possibly undefined) variables and
+   faults - every sequence up to length 4 *)
+CliForms == {Call("display", <<Num(1)>>), Call("newline", <<>>), Define("v", Num(42)), Call("display", <<Var("v")>>),
+             Begin(<<Call("display", <<Num(7)>>), Call("car", <<Num(5)>>)>>), Call("display", <<Call("+", <<Num(20), Num(3)>>)>>)}
+CliFamily == UNION {{[forms |-> fs, tag |-> <<"cli">>] : fs \in [1..n -> CliForms]} : n \in 1..4}
 =============================================================================
